@@ -714,6 +714,10 @@ func (fr *Frame) makeInterface(x *ssa.MakeInterface, st *State) Val {
 	fx := fr.fx
 	v := fr.escape(fr.get(x.X), st)
 	tid := fmt.Sprint(fx.E.typeIDOf(x.X.Type()))
+	if it, ok := x.Type().Underlying().(*types.Interface); ok && it.NumMethods() > 0 {
+		// the type checker has established that the static type implements the target interface
+		fx.assert("(implements " + tid + " " + fmt.Sprint(fx.E.typeIDOf(x.Type())) + ")")
+	}
 	if _, isPtr := x.X.Type().Underlying().(*types.Pointer); isPtr {
 		if v.Loc != nil {
 			unsupported("interface from interior pointer")
